@@ -57,6 +57,12 @@ Step ==
                 PrintT(<<"REJECT", ToJson([trace |-> e.trace, line |-> l, why |-> "a metric did not reach the backend under the prefixed name (exactly once)",
                                            expected |-> exp, logged |-> [rtt |-> e.rtt, limit |-> e.limit], op |-> [op |-> "naming", ctor |-> e.ctor, prefix |-> e.prefix]])>>)
      ELSE IF e.ev = "NamingSkipped" THEN UNCHANGED <<ok, cfg, s>>
+     ELSE IF e.ev = "Restart"
+     THEN \* Start, a poll, Stop, the supplier's value changes, Start again: the backend metric shows the value polled in each period
+          /\ UNCHANGED <<ok, cfg, s>>
+          /\ (e.first # e.want.first \/ e.second # e.want.second) =>
+                PrintT(<<"REJECT", ToJson([trace |-> e.trace, line |-> l, why |-> "a gauge polled after Stop and a second Start does not reach the backend metric (or not with the current value)",
+                                           expected |-> e.want, logged |-> [first |-> e.first, second |-> e.second], op |-> [op |-> "restart", ctor |-> e.ctor, prefix |-> "svc"]])>>)
      ELSE IF e.ev = "StopRace"
      THEN \* Stop called while a poll is in progress (a gauge supplier has not returned yet): Stop terminates the poller,
           \* so it returns only once that poll is over, and no supplier is called after it has returned
